@@ -381,6 +381,18 @@ Definition get_item (obj key : val) : getres :=
   | _ => raw_getitem obj key
   end.
 
+(** A ForLoop object is live: its index moves on with the loop.  The model holds
+    a snapshot, which is what every read inside the same iteration sees; a
+    snapshot that outlives the iteration (kept by [assign]) would not. *)
+Fixpoint has_forloop (v : val) : bool :=
+  match v with
+  | VForLoop _ _ _ _ => true
+  | VList l => (fix go (l : list val) : bool := match l with [] => false | x :: l' => has_forloop x || go l' end) l
+  | VDict kvs =>
+      (fix go (l : list (str * val)) : bool := match l with [] => false | kv :: l' => has_forloop (snd kv) || go l' end) kvs
+  | _ => false
+  end.
+
 (** Boolean equality on values, for the correspondence runner. *)
 Fixpoint val_eqb (a b : val) {struct a} : bool :=
   match a, b with
